@@ -44,6 +44,9 @@ type Spec[C any] struct {
 	Parallel int
 	// Env adds environment variables to worker processes.
 	Env []string
+	// Tag names the construct a case exercises; with Batch == 1 it is put in
+	// front of race-report and crash signatures of that case's process.
+	Tag func(c C) string
 }
 
 // Viol is one violation reported by a monitor.
@@ -97,6 +100,7 @@ type check interface {
 	n(tier string) int
 	genJSON(seed int64, i int, tier string) json.RawMessage
 	execJSON(x *Ctx, raw json.RawMessage) error
+	tagJSON(raw json.RawMessage) string
 }
 
 type base struct {
@@ -134,6 +138,17 @@ func (w *wrap[C]) execJSON(x *Ctx, raw json.RawMessage) error {
 	}
 	w.s.Exec(x, c)
 	return nil
+}
+
+func (w *wrap[C]) tagJSON(raw json.RawMessage) string {
+	if w.s.Tag == nil {
+		return ""
+	}
+	var c C
+	if json.Unmarshal(raw, &c) != nil {
+		return ""
+	}
+	return w.s.Tag(c)
 }
 
 var (
